@@ -69,6 +69,12 @@ def cases(tier, seed):
                                     devs=[[p, a] for p, a in zip(pos, alt)],
                                 )
                             )
+    # the same histories at very small time steps (a record is valid because it was written, not because dt is "large")
+    for N in (1, 2, 3, 5) if tier == "quick" else range(0, nmax + 1):
+        for k in sorted({1, 2, 3, N + 1}):
+            for expo in (-30, -40):
+                out.append(dict(fam="scripted", N=N, k=k, thermal=0, probes=2, screening=True, devs=[], dt_exp=expo))
+                out.append(dict(fam="scripted", N=N, k=k, thermal=1, probes=0, screening=False, devs=[[0, 0]] if N else [], dt_exp=expo))
     for Nr in (5,) if tier == "quick" else (5, 8):
         for k in range(1, Nr + 3):
             for drive in ("field", "current"):
@@ -128,6 +134,7 @@ def run_scripted(case):
     res = CaseResult()
     res.key = case_key(case)
     N0, k, thermal, probes, scr = case["N"], case["k"], case["thermal"], case["probes"], case["screening"]
+    DT0 = 2.0 ** case.get("dt_exp", -6)
     script = [DT0] * (N0 + 4)
     for pos, alt in case["devs"]:
         script[pos] = DT0 * ALTS[alt]
@@ -191,7 +198,7 @@ def run_scripted(case):
             t_obs = float(fr["attrs"]["time"])
             t_exp = exp["times"][i]
             res.residual("time", abs(t_obs - t_exp))
-            if abs(t_obs - t_exp) > TOLERANCES["time"] * max(1.0, abs(t_exp)):
+            if abs(t_obs - t_exp) > 1e-9 * DT0:
                 res.violate(
                     "frame-time",
                     frame="final" if is_final else "inner",
@@ -259,7 +266,7 @@ def run_scripted(case):
     if sol is not None:
         ft = np.array([float(fr["attrs"]["time"]) for fr in frames])
         st = sol.times
-        if st is None or len(st) != len(ft) or np.max(np.abs(np.asarray(st, float) - ft)) > 1e-12:
+        if st is None or len(st) != len(ft) or np.max(np.abs(np.asarray(st, float) - ft)) > 1e-9 * DT0:
             res.violate(
                 "solution-times",
                 same_length=bool(st is not None and len(st) == len(ft)),
@@ -274,7 +281,7 @@ def run_scripted(case):
                 fv = allc.get(c)
                 if (gv is None) != (fv is None) or (gv is not None and not np.array_equal(np.asarray(gv, float), fv)):
                     res.violate("solution-dynamics-column", column=c, detail={"file": fv, "solution": gv})
-            if len(got_dt) and not np.allclose(dyn.time, np.cumsum(got_dt), rtol=0, atol=1e-12):
+            if len(got_dt) and not np.allclose(dyn.time, np.cumsum(got_dt), rtol=0, atol=1e-9 * DT0):
                 res.violate("solution-dynamics-time")
         # every frame loads through the Solution
         try:
